@@ -67,10 +67,22 @@ func New(evictionChecker evictionchecker.EvictionChecker) (evictionpolicy.CacheE
 }
 
 func (lfu *LFUCacheEvictionPolicy) TrackSetAndReturnEvictedKeys(key string, size int64) []string {
+	// A key that is set again keeps a single heap entry: drop the previous one
+	// first, so the eviction loop below can neither pop it (which would untrack
+	// the value being set) nor leave a stale duplicate behind.
+	for index, entry := range lfu.minLFUCacheHeap {
+		if entry.key == key {
+			heap.Remove(&lfu.minLFUCacheHeap, index)
+			break
+		}
+	}
+
 	lfu.evictionChecker.TrackSet(key, size)
 
 	evictedKeys := []string{}
-	for lfu.evictionChecker.ShouldEvict() {
+	// An item larger than the whole limit leaves nothing to evict: stop at an
+	// empty heap instead of popping it (index out of range).
+	for lfu.evictionChecker.ShouldEvict() && lfu.minLFUCacheHeap.Len() > 0 {
 		cacheEntryToEvict := heap.Pop(&lfu.minLFUCacheHeap).(*LFUCacheEntry)
 		lfu.evictionChecker.TrackRemove(cacheEntryToEvict.key)
 		evictedKeys = append(evictedKeys, cacheEntryToEvict.key)
